@@ -11,6 +11,8 @@ import itertools
 import json
 
 I64_MIN, I64_MAX = -(2 ** 63), 2 ** 63 - 1
+THOROUGH = False      # set by battery(prop, thorough=True): the property's own, larger enumeration bounds
+SEED = 0              # VERIF_SEED, for the random parts of the thorough tier
 
 
 def fits(x):
@@ -62,10 +64,10 @@ def for_expected(sel):
 
 def c05():
     out = []
-    for n in range(0, 5):
+    for n in range(0, 7 if THOROUGH else 5):
         arr = [10 * (k + 1) for k in range(n)]
-        for offset in (None, 0, 1, 2, 5):
-            for limit in (None, 0, 1, 2, 5):
+        for offset in ((None,) + tuple(range(0, 9)) if THOROUGH else (None, 0, 1, 2, 5)):
+            for limit in ((None,) + tuple(range(0, 9)) if THOROUGH else (None, 0, 1, 2, 5)):
                 for rev in (False, True):
                     attrs = ""
                     if limit is not None:
@@ -361,6 +363,21 @@ def c15():
         # numeric strings behave like the numbers they spell
         out.append(R("{{ s | abs }}", num(abs(a)), {"s": str(a)}))
         out.append(R("{{ s | plus: 1 }}", num(a + 1), {"s": str(a)}))
+    if THOROUGH:
+        import random
+        rnd = random.Random(SEED)
+        for _ in range(1500):
+            a = rnd.choice(BOUND) if rnd.random() < 0.2 else rnd.randint(I64_MIN, I64_MAX)
+            o = rnd.choice(BOUND) if rnd.random() < 0.2 else rnd.randint(I64_MIN, I64_MAX) // rnd.choice([1, 1, 2 ** 20, 2 ** 40, 2 ** 62])
+            data = {"a": a, "o": o}
+            out.append(R("{{ a | plus: o }}", num(a + o), data))
+            out.append(R("{{ a | minus: o }}", num(a - o), data))
+            out.append(R("{{ a | times: o }}", num(a * o), data))
+            if o != 0:
+                q = tdiv(a, o)
+                out.append(R("{{ a | divided_by: o }}", num(q), data))
+                if fits(q):
+                    out.append(R("{{ a | modulo: o }}", num(a - q * o), data))
     import math
     for k in range(-40, 41):
         x = k / 8.0
@@ -518,6 +535,8 @@ def c04_programs():
 
 
 def c04_generated(limit=1500):
+    if THOROUGH:
+        limit = 6000
     out = []
     progs = c04_programs()
     step = max(1, len(progs) // limit)
@@ -846,6 +865,10 @@ BATTERIES = {"C14": c14, "C08": c08, "C09": c09, "C11": c11, "C12": c12, "C04": 
 
 
 def battery(prop, thorough=False):
+    global THOROUGH, SEED
+    THOROUGH = bool(thorough)
+    import os
+    SEED = int(os.environ.get("VERIF_SEED", "0") or 0)
     if prop == "C02":
         out = [R("{% tablerow x in a cols:0 %}{{x}}{% endtablerow %}", {"no_panic": True}, {"a": [1, 2]}),
                R("{% tablerow x in a cols:c %}{{x}}{% endtablerow %}", {"no_panic": True}, {"a": [1, 2], "c": 0}),
